@@ -32,14 +32,20 @@ class StrSub(str):
 def _make(x):
     from localcider.sequenceParameters import SequenceParameters
 
+    st, o = call(SequenceParameters, x, seconds=30)
+    if st != 'ok':
+        return st, o
+
     def f():
-        o = SequenceParameters(x)
         s = o.get_sequence()
         fresh = SequenceParameters(s)
         same = all(abs(a - b) < 1e-12 for a, b in [(o.get_kappa(), fresh.get_kappa()), (o.get_FCR(), fresh.get_FCR()),
                                                    (o.get_mean_hydropathy(), fresh.get_mean_hydropathy())])
         return (s, int(o.get_length()), len(o), int(o.SeqObj.len), same)
-    return call(f, seconds=30)
+    st2, v = call(f, seconds=30)
+    if st2 != 'ok':      # an object was produced but cannot be analysed like its normalised word
+        return 'ok', (call(o.get_sequence)[1], -1, -1, -1, False)
+    return 'ok', v
 
 
 def build(ctx):
